@@ -11,7 +11,7 @@ from lib import c06_more as more, c06_units as cu, framework as fw, qconv, runne
 META = {
     'props': 'Props/C06.v',
     'claimed': True,
-    'level_text': ('Proof (partial): 21 axiom-free Coq theorems about an executable model of Parameter.ReadParameter / ConvertUnits / LookupUnits / '
+    'level_text': ('Proof (partial): 33 axiom-free Coq theorems about an executable model of Parameter.ReadParameter / ConvertUnits / LookupUnits / '
                    'ConvertUnitsBack / ConvertOutputUnits over ARBITRARY registry tables: affine conversions round-trip, compose and preserve the '
                    'denoted quantity for every value; whenever LookupUnits recognises the unit pint reports after the conversion, writing "x u" has '
                    'exactly the effect of writing the equivalent value in the default unit (same value, remembered unit, flags, error) and the '
@@ -23,11 +23,18 @@ META = {
                    'parameter tables are regenerated (Gen/UnitCatalogue.v) and re-proved well-formed; EVERY scalar parameter of every module x '
                    'EVERY unit of its catalogue goes through the real ReadParameter (+ the echo step) and every output parameter x catalogue unit '
                    'through the real ConvertOutputUnits; model and implementation are compared inside Coq (vm_compute) and the property is judged '
-                   'by Coq-defined oracles; whole runs with one entry re-expressed / one output unit requested are compared with their reference.'),
+                   'by Coq-defined oracles; whole runs with one entry re-expressed / one output unit requested are compared with their reference. '
+                   'Round 2: ConvertUnitsBack is proved to be the same affine map as ConvertUnits and a round trip over any re-expression; the '
+                   'depth (x1000, and Economics\' >500 -> /1000 back), diameter (>2 -> x0.0254, METERS) and impedance (x1000, unit kept) heuristics '
+                   'are modelled with denotation / echo-round-trip theorems and tied to snapshots and echo lines of real runs; one-line list '
+                   'parameters (a unit suffix is never read) and HIP-RA-X parameters go through the same reader enumeration, HIP-RA-X whole '
+                   'runs are compared pairwise; output-unit requests are judged on profile-table columns (value x factor under a header that '
+                   'shows the requested unit); the registry is checked against a frozen independent unit reference (C06_reference_units_agree); '
+                   'the evidence counts, per unit class, the (parameter, unit) pairs covered by C06_catalogue vs each finding.'),
     'level_note': ('Trusted: Coq kernel + vm_compute; the generator and harness (Python); pint is the authority for what a catalogue text means '
                    '(its factors enter as regenerated rationals, cross-checked against registry conversions on every run); float rounding is outside '
                    'the theorems (comparisons at 1e-9 relative). "Nothing downstream depends on CurrentUnits" is tied by run pairs, not proved. '
-                   'Six defect classes of the pinned tree are recorded as findings C06-F1..F6 (known_findings.d/C06.json) with class-specific keys.'),
+                   'Seven defect classes of the pinned tree are recorded as findings C06-F1..F7 (known_findings.json) with class-specific keys.'),
     'technique': 'Coq proof about an executable Gallina model + kernel-evaluated correspondence with the implementation + tables regenerated from the source',
     'rule': ('reader level: every class of geophires_x owning a ParameterDict is instantiated on a stub model; every float/int parameter with a unit '
              'enum x every member of that enum (the program\'s own catalogue for the parameter) x in-range values drawn from ctx.rng (ints: member+0.5; '
@@ -36,25 +43,30 @@ META = {
              'dimensionality); distinct = distinct (parameter name, unit). Output level: every OutputParameter x every member of its enum through '
              'LookupUnits + ConvertOutputUnits on scalars and arrays. Run level: fixed structures (end use, plant, reservoir, economic model) with '
              'numbers from ctx.rng; one entry (given or default) re-expressed per variant vs the same entry in the default unit; one "Units:" '
-             'request per variant vs the base; quick samples one variant per unit class, thorough enumerates all.'),
+             'request per variant vs the base; quick samples one variant per unit class plus every entry of the file and every profile output, '
+             'thorough enumerates all. HIP-RA-X: the shipped example with numbers moved by up to 10 %, every scalar input x catalogue unit and every '
+             'output x catalogue unit as whole runs. Heuristics: depth / diameter / impedance entries in 2-7 units each, snapshot vs model and echo line.'),
     'trusted_base': ['Coq 8.16.1 kernel + vm_compute (no native_compute)',
-                     'all 21 C06 theorems: Closed under the global context (no axioms)',
+                     'all 33 C06 theorems: Closed under the global context (no axioms)',
                      'hand-written models coq/Model/UnitAlg.v, coq/Model/UnitReader.v tied to Parameter.py by kernel-evaluated correspondence',
                      'tools/lib/c06_units.py, tools/gen/unit_catalogue.py, tools/props/C06.py (unverified Python), tools/lib/runner.py + hook snapshot',
                      'pint 0.26 registry + GEOPHIRES3_newunits.txt as the meaning of unit texts; forex_python CurrencyCodes (static table)'],
     'modelled': ['Parameter.ReadParameter (float/int path)', 'Parameter.ConvertUnits (pint branch, currency-prefix branch)', 'Parameter.LookupUnits',
                  'Parameter.ConvertUnitsBack (+ currency fall-back)', 'Parameter.ConvertOutputUnits', 'Outputs._convert_units guards',
-                 'Reservoir depth x1000 / WellBores diameter > 2 heuristics', 'pint parsing/conversion as affine maps (table)',
+                 'Reservoir depth x1000 / Economics depth > 500 back / WellBores diameter > 2 / impedance x1000 heuristics',
+                 'ReadParameter on one-line list parameters', 'HIP-RA-X parameters (same ReadParameter / ConvertUnitsBack)', 'pint parsing/conversion as affine maps (table)',
                  'forex_python CurrencyCodes.get_symbol (table)'],
     'assumptions': ['a unit text means what the program\'s pint registry says it means (e.g. "gr" is grain, "mt" is milli-tonne)',
                     'unit "" (dimensionless) cannot be written in an input file (values are stripped) and is excluded from the input quantifier',
                     'currencies other than USD need the disabled forex service and are outside the property (not dimensionally convertible here)',
-                    'list parameters read from one line ("Gradients") and HIP-RA-X are not covered; tables of the report are compared only between '
-                    'runs that should print identical numbers (input pairs), not for output-unit requests',
+                    'add-on list entries ("AddOn CAPEX 1") bypass ReadParameter (float(sValue)) and are not modelled; table columns are matched '
+                    'to header units by order inside "|" sections, else by horizontal position; spec/c06_unit_reference.json is a hand-written '
+                    'reference (85 units) and is trusted as the documented meaning of those units',
                     'floating-point rounding of pint conversions is not modelled (exact rationals vs floats at 1e-9 relative)'],
     'fingerprint': [('src/geophires_x/Parameter.py', 'ConvertUnits'), ('src/geophires_x/Parameter.py', 'LookupUnits'),
                     ('src/geophires_x/Parameter.py', 'ConvertUnitsBack'), ('src/geophires_x/Parameter.py', 'ConvertOutputUnits'),
-                    ('src/geophires_x/Parameter.py', 'ReadParameter'), ('src/geophires_x/Outputs.py', 'Outputs._convert_units')],
+                    ('src/geophires_x/Parameter.py', 'ReadParameter'), ('src/geophires_x/Outputs.py', 'Outputs._convert_units'),
+                    ('src/hip_ra_x/hip_ra_x.py', 'HIP_RA_X.read_parameters'), ('src/hip_ra_x/hip_ra_x.py', 'HIP_RA_X.PrintOutputs')],
 }
 GENERATORS = (gen.gen_unit_catalogue, gen.gen_unit_reference)
 REQ = ['Model.UnitAlg', 'Model.UnitReader', 'Gen.UnitCatalogue', 'Gen.UnitReference']
